@@ -24,7 +24,7 @@ CLASS = {
     ("compile_deftype", "name"): "SSub",
     ("compile_attribute_access", "attr"): "SSub", ("compile_attribute_access", "root"): "SSub",
     ("compile_comprehension", "key"): "SEmitted", ("compile_comprehension", "elt"): "SEmitted",
-    ("compile_comprehension", "v[1]"): "SEmitted", ("compile_comprehension", "v"): "SEmitted",
+    ("compile_comprehension", "v[1]"): "SEmitted", ("compile_comprehension", "value"): "SEmitted", ("compile_comprehension", "v"): "SEmitted",
     ("compile_comprehension", "final"): "SSub",
     ("compile_while_expression", "cond"): "SSub",
     ("compile_match_expression", "pattern[0]"): "SSub", ("compile_match_expression", "guard"): "SEmitted",
